@@ -295,6 +295,20 @@ def build():
         crash_point(interp, "replace")
         return None
 
+    def os_unlink(interp, args, kwargs):
+        # removes one name (FileNotFoundError when it is already gone); only ever applied to this writer's own temporary
+        ctx = interp.ctx
+        interfere(interp)
+        ex, ct, pay = fs(ctx)
+        f = to_term(args[0])
+        if not ctx.branch(z3.Select(ex, f), "unlink:exists"):
+            raise PyRaise(SExc(BUILTIN_EXC["FileNotFoundError"], (), errno=2))
+        setfs(ctx, ex=z3.Store(ex, f, False))
+        ctx.events.append(("unlink", args[0]))
+        crash_point(interp, "unlink")
+        return None
+
+    p.models["os.unlink"] = os_unlink
     p.globals["concurrency_safe_rename"] = _Fn(os_replace)
     p.assume_note("os.replace(src, dst) is atomic: dst becomes exactly src's file (FileNotFoundError when src is gone); POSIX rename semantics, no fsync reordering")
 
